@@ -208,7 +208,16 @@ func genSpec(t *rapid.T) *spec {
 		s.resp = append(s.resp, hdr{"Keep-Alive", "timeout=9"}, hdr{"Proxy-Authenticate", "Basic"})
 	}
 	if rapid.Bool().Draw(t, "respConn") {
-		s.resp = append(s.resp, hdr{"Connection", "X-Secret"})
+		// the backend names a header of its own as hop-by-hop, announces that it closes the connection, or both
+		vals := []string{"X-Secret", "X-Secret", "close", "close, X-Secret", "X-Secret, close"}
+		if knownExcluded("resp-connection-close-list") {
+			// known finding (known_findings.txt): a response whose Connection header holds "close" next to
+			// a header name loses the whole Connection header inside net/http's client before the forwarder
+			// sees it, so the named header is relayed. Excluded by construction while it is listed.
+			vals = vals[:3]
+			vstat.Count("known_finding_excluded:resp-connection-close-list", 1)
+		}
+		s.resp = append(s.resp, hdr{"Connection", rapid.SampledFrom(vals).Draw(t, "respConnValue")})
 	}
 	return s
 }
@@ -551,11 +560,18 @@ func check(fatalf func(string, ...any), s *spec) (discarded bool) {
 	}
 	respNamed := false
 	for _, h := range s.resp {
-		if h.k == "Connection" {
+		if h.k == "Connection" && strings.Contains(h.v, "X-Secret") {
 			respNamed = true
 		}
 	}
 	sent := rec.SentHeader()
+	// whatever the backend sent and however its connection ended: connection management is the
+	// business of each hop, none of it is relayed to the client
+	for _, k := range []string{"Connection", "Keep-Alive", "Proxy-Connection", "Proxy-Authenticate", "Te"} {
+		if vs := sent.Values(k); len(vs) != 0 {
+			bad("hop-by-hop response header %q reached the client: %q", k, vs)
+		}
+	}
 	wantResp := http.Header{}
 	for _, h := range s.resp {
 		if isHop(h.k) || (respNamed && h.k == "X-Secret") {
@@ -577,6 +593,15 @@ func check(fatalf func(string, ...any), s *spec) (discarded bool) {
 	for k, vs := range wantResp {
 		if g := sent.Values(k); strings.Join(g, "\x00") != strings.Join(vs, "\x00") {
 			bad("response header %q: client got %q, backend sent %q", k, g, vs)
+		}
+	}
+	return false
+}
+
+func knownExcluded(key string) bool {
+	for _, k := range strings.Split(os.Getenv("VERIF_KNOWN"), ",") {
+		if k == key {
+			return true
 		}
 	}
 	return false
